@@ -1,5 +1,6 @@
 import CoapVerif.Model.Block
 import CoapVerif.Model.BlockCrcv
+import CoapVerif.Model.BlockRtag
 import CoapVerif.Generated.BlockConst
 /- Line-protocol driver for C09 Layer A (block option codec, size negotiation, slicing, received ranges,
    body reassembly, single-body receiver step).  Output formats mirror harness/block.c. -/
@@ -14,6 +15,7 @@ import CoapVerif.Generated.BlockConst
 -- DRIVER-OPS: srcv => Coap.Driver.Block.srcvStep
 -- DRIVER-OPS: srcv2 => Coap.Driver.Block.srcv2Step
 -- DRIVER-OPS: crcv => Coap.Driver.Block.crcvLine
+-- DRIVER-OPS: srcv3 => Coap.Driver.Block.srcv3Line
 namespace Coap.Driver.Block
 open Coap Coap.Block
 
@@ -241,6 +243,41 @@ def crcvLine (args : List String) : String :=
       | some its => "M " ++ String.intercalate ","
           (crcvRun (single != 0) (mkBody bodyLen seed) (if d = "-" then none else nat? d) its none [])
     | _, _, _ => "bad-op"
+  | _ => "bad-op"
+
+/-! ## `srcv3`: two interleaved Block1 transfers told apart by Request-Tag (Model/BlockRtag.lean) -/
+
+/-- Request-Tag for code r: 0 = no option, 1 = EMPTY, 2..9 = 1..8 bytes 0x71.., 10..17 = 1..8 bytes 0x51.. -/
+def rtagOf (r : Nat) : Option Bytes :=
+  if r = 0 then none
+  else if r = 1 then some []
+  else if r ≤ 9 then some ((List.range (r - 1)).map fun i => UInt8.ofNat (0x71 + i))
+  else some ((List.range (r - 9)).map fun i => UInt8.ofNat (0x51 + i))
+
+def srcv3Run (maxBlk : Nat) (b0 b1 : Bytes) (withSize1 : Bool) :
+    List (List Nat) → List LgSrcv → List String → List String
+  | [], _, acc => acc.reverse
+  | it :: rest, lgs, acc =>
+    match it with
+    | [t, num, m, szx, r] =>
+      if t > 1 ∨ m > 1 ∨ szx > 6 ∨ r > 17 then ("bad-op" :: acc).reverse else
+      let body := if t = 0 then b0 else b1
+      let chunk := 2 ^ (szx + 4)
+      let (lgs', o) := srcvMultiStep Coap.Generated.rblockCnt 0 maxBlk lgs (rtagOf r) num m szx
+        ((body.drop (num * chunk)).take chunk) (if withSize1 then some body.length else none)
+      srcv3Run maxBlk b0 b1 withSize1 rest lgs' ((showOut o m ++ s!"/{lgs'.length}") :: acc)
+    | _ => ("bad-op" :: acc).reverse
+
+def srcv3Line (args : List String) : String :=
+  match args with
+  | [a, b, c, d, e, f, seq] =>
+    match nat? a, nat? b, nat? c, nat? d, nat? e, nat? f with
+    | some maxBlk, some len1, some seed1, some len2, some seed2, some ws =>
+      match (seq.split (· == ',')).toList.mapM (fun x => splitNats x.toString '.') with
+      | none => "bad-op"
+      | some its => "M " ++ String.intercalate ","
+          (srcv3Run maxBlk (mkBody len1 seed1) (mkBody len2 seed2) (ws != 0) its [] [])
+    | _, _, _, _, _, _ => "bad-op"
   | _ => "bad-op"
 
 def srcv2Step (args : List String) : String := step "srcv2" args
